@@ -3,6 +3,8 @@
 package syncw
 
 import (
+	"os"
+	"os/exec"
 	"encoding/json"
 	"fmt"
 	"sort"
@@ -16,6 +18,7 @@ import (
 	"github.com/MichaelMure/git-bug/verifshim/vctl"
 	"github.com/MichaelMure/git-bug/verifshim/vtime"
 
+	"verifharness/props/c08"
 	"verifharness/refmodel"
 	"verifharness/world"
 	"verifharness/xstate"
@@ -36,6 +39,13 @@ type Params struct {
 	NoRemote bool   `json:"noremote"` // replicas exchange only with each other (needs Peers)
 	OneEdit  bool   `json:"oneedit"`  // only single-operation edits
 	Disk     bool   `json:"disk"`     // plain-path remotes: stock git does the transport
+	// Signed: every user has a signing key, so every commit is signed when written and its signature
+	// verified whenever it is read (pulls read the same commits several times)
+	Signed bool `json:"signed,omitempty"`
+	// PackRefs adds the environment action packrefs(x): stock `git pack-refs --all` in replica x's
+	// repository (what git gc does), at most once per replica and path, while git-bug's handle on
+	// that repository stays open
+	PackRefs bool `json:"packrefs,omitempty"`
 }
 
 func (p Params) String() string { b, _ := json.Marshal(p); return string(b) }
@@ -46,6 +56,9 @@ type model struct {
 	names []string
 	bug0  entity.Id
 	edits int
+
+	packed  map[string]bool   // replicas whose refs were packed by stock git on this path
+	fetched map[string]string // per replica: did its handle fetch before / after the packing
 }
 
 func New(params string) (xstate.Model, error) {
@@ -82,6 +95,11 @@ func (m *model) Init(dir string) error {
 		}
 		w.Users = im.Users
 		m.w, m.bug0 = w, im.Bug0
+		if m.p.Signed {
+			if err := m.loadKeys(w); err != nil {
+				return err
+			}
+		}
 		return nil
 	}
 	if err := m.build(dir); err != nil {
@@ -89,6 +107,17 @@ func (m *model) Init(dir string) error {
 	}
 	meta, _ := json.Marshal(initMeta{Users: m.w.Users, Bug0: m.bug0})
 	return world.SaveTemplate(dir, meta)
+}
+
+// loadKeys gives the world the pre-generated keys of the C08 harness (K1, K2, K3 for A, B, C).
+func (m *model) loadKeys(w *world.World) error {
+	keys, err := c08.LoadKeys()
+	if err != nil {
+		return err
+	}
+	w.UserKeys = []*identity.Key{keys["K1"], keys["K2"], keys["K3"]}
+	w.PrivateKeys, err = c08.KeyringOf(keys)
+	return err
 }
 
 func (m *model) build(dir string) error {
@@ -101,6 +130,11 @@ func (m *model) build(dir string) error {
 		return err
 	}
 	m.w = w
+	if m.p.Signed {
+		if err := m.loadKeys(w); err != nil {
+			return err
+		}
+	}
 	if err := w.SetupUsers("R"); err != nil {
 		return err
 	}
@@ -118,6 +152,20 @@ func (m *model) build(dir string) error {
 		return err
 	}
 	m.bug0 = b.Id()
+	if m.p.Signed {
+		// the configuration is pointless if the commits are not signed: make sure they are
+		head, err := w.Repos["A"].ResolveRef("refs/bugs/" + string(m.bug0))
+		if err != nil {
+			return err
+		}
+		c, err := w.Repos["A"].ReadCommit(head)
+		if err != nil {
+			return err
+		}
+		if c.Signature == nil {
+			return fmt.Errorf("signed configuration: the first commit carries no signature")
+		}
+	}
 	if _, err := bug.Push(w.Repos["A"], "R"); err != nil {
 		return err
 	}
@@ -185,6 +233,13 @@ func (m *model) Actions() []string {
 			out = append(out, fmt.Sprintf("newbug(%s)", x))
 		}
 	}
+	if m.p.PackRefs {
+		for _, x := range m.names {
+			if !m.packed[x] {
+				out = append(out, fmt.Sprintf("packrefs(%s)", x))
+			}
+		}
+	}
 	return out
 }
 
@@ -238,17 +293,31 @@ func (m *model) Apply(a string) (string, []xstate.Violation, error) {
 		}
 		return "ok", nil, nil
 	case "fetch":
+		m.noteFetch(x)
 		if _, err := bug.Fetch(repo, args[1]); err != nil {
-			return "", nil, fmt.Errorf("fetch: %w", err)
+			return m.fetchFailed(x, args[1], err)
 		}
 		return "ok", nil, nil
 	case "merge":
 		return m.merge(x, args[1])
 	case "pull":
+		m.noteFetch(x)
 		if _, err := bug.Fetch(repo, args[1]); err != nil {
-			return "", nil, fmt.Errorf("fetch: %w", err)
+			return m.fetchFailed(x, args[1], err)
 		}
 		return m.merge(x, args[1])
+	case "packrefs":
+		if m.packed == nil {
+			m.packed = map[string]bool{}
+		}
+		m.packed[x] = true
+		cmd := exec.Command("git", "pack-refs", "--all")
+		cmd.Dir = m.w.GitDir(x)
+		cmd.Env = append(os.Environ(), "GIT_DIR="+m.w.GitDir(x))
+		if out, err := cmd.CombinedOutput(); err != nil {
+			return "", nil, fmt.Errorf("git pack-refs in %s: %v: %s", x, err, out)
+		}
+		return "ok", nil, nil
 	}
 	return "", nil, fmt.Errorf("unknown action %s", a)
 }
@@ -623,7 +692,33 @@ func short(ids []string) []string {
 // ---- state key and state oracles --------------------------------------------------------------
 
 func (m *model) Key() (string, error) {
-	return m.w.Key(fmt.Sprint(m.edits))
+	if !m.p.PackRefs {
+		return m.w.Key(fmt.Sprint(m.edits))
+	}
+	// hidden state: which repositories had their refs packed, and which handles have fetched already
+	// (before or after the packing) — a handle may remember what it did to the refs
+	return m.w.Key(fmt.Sprint(m.edits), fmt.Sprint(m.packed), fmt.Sprint(m.fetched))
+}
+
+// noteFetch records, per replica, whether its handle fetched before and after its refs were packed.
+func (m *model) noteFetch(x string) {
+	if m.fetched == nil {
+		m.fetched = map[string]string{}
+	}
+	tag := "before-packing"
+	if m.packed[x] {
+		tag = "after-packing"
+	}
+	if !strings.Contains(m.fetched[x], tag) {
+		m.fetched[x] += tag + ";"
+	}
+}
+
+// fetchFailed: in this closed world every remote is reachable and valid, so a fetch that fails is
+// a replica that can no longer receive what the others know.
+func (m *model) fetchFailed(x, remote string, err error) (string, []xstate.Violation, error) {
+	return "fetch-error", []xstate.Violation{{Oracle: "c01.exchange", Sig: "fetch-fails:" + errClass(err.Error()),
+		Detail: fmt.Sprintf("replica %s: fetching from %s failed: %v", x, remote, err)}}, nil
 }
 
 func (m *model) Check() ([]string, []xstate.Violation, error) {
@@ -705,7 +800,7 @@ func (m *model) Check() ([]string, []xstate.Violation, error) {
 }
 
 func errClass(s string) string {
-	for _, k := range []string{"creation lamport time not set", "DFS failed", "lamport clock ordering", "multiple leafs", "merge commit cannot have operations", "jumping too far"} {
+	for _, k := range []string{"reference has changed concurrently", "ref not found", "creation lamport time not set", "DFS failed", "lamport clock ordering", "multiple leafs", "merge commit cannot have operations", "jumping too far"} {
 		if strings.Contains(s, k) {
 			return strings.ReplaceAll(k, " ", "-")
 		}
